@@ -13,6 +13,17 @@ for c in man["checks"]:
         src = open(fn).read()
         mods.update(m for m in re.findall(r"EXTENDS (\w+)", src) if os.path.exists(os.path.join(V, "spec", m + ".tla")))
         mods.update(m for m in re.findall(r'"(\w+)"', src) if os.path.exists(os.path.join(V, "spec", m + ".tla")))
+        mods.update(m for m in re.findall(r"(\w+)\.tla", src) if os.path.exists(os.path.join(V, "spec", m + ".tla")))
+    # modules reached through EXTENDS / INSTANCE of the ones found
+    grew = True
+    while grew:
+        grew = False
+        for m in list(mods):
+            for line in re.findall(r"^(?:EXTENDS|INSTANCE) (.*)$", open(os.path.join(V, "spec", m + ".tla")).read(), re.M):
+                for d in re.findall(r"\w+", line):
+                    if d not in mods and os.path.exists(os.path.join(V, "spec", d + ".tla")):
+                        mods.add(d)
+                        grew = True
     try:
         e = json.load(open(os.path.join(V, "evidence", pid + ".json")))
         cov = e["coverage"]
